@@ -61,6 +61,13 @@ impl SwarmDriver {
             .map(|(id, (key, senders, result_map, _cfg))| (*id, key.clone(), senders.len(), result_map.len()))
             .collect()
     }
+    /// Issues recorded against `peer` (Debug form) and whether it is considered bad.
+    pub fn verif_node_issues(&self, peer: &PeerId) -> (Vec<String>, bool) {
+        match self.bad_nodes.get(peer) {
+            Some((issues, is_bad)) => (issues.iter().map(|(i, _)| format!("{i:?}")).collect(), *is_bad),
+            None => (vec![], false),
+        }
+    }
     pub fn verif_fetcher_view(&self) -> (usize, usize) {
         let f = crate::replication_fetcher::verif_fetcher::fetcher_counts(&self.replication_fetcher);
         f
